@@ -424,6 +424,25 @@ func (g *TG) Portions(k int) []Allot {
 		}
 		return out
 	}
+	if k >= 2 && g.pct("allot.tiny", 3) {
+		// one portion whose lowest-terms denominator sits at a word boundary, the rest to
+		// `remaining`
+		tiny := pickS(g, "allot.tiny.text", []string{"1/18446744073709551616", "3/36893488147419103232", "1/55340232221128654848",
+			"1/9223372036854775808", "1/10000000000000000000", "5/18446744073709551616", "18446744073709551615/18446744073709551616"})
+		for i := range out {
+			switch {
+			case i == 0 && g.pct("allot.tiny.var", 40):
+				out[i] = Allot{Kind: AVar, Text: g.declare("portion", tiny)}
+			case i == 0:
+				out[i] = Allot{Kind: ALit, Text: tiny}
+			case i == k-1:
+				out[i] = Allot{Kind: ARemaining}
+			default:
+				out[i] = Allot{Kind: ALit, Text: "0/1"}
+			}
+		}
+		return out
+	}
 	useRemaining := g.pct("allot.remaining", 35)
 	for i := range ws {
 		r := big.NewRat(ws[i], tot)
@@ -443,6 +462,20 @@ func (g *TG) portionSpelling(r *big.Rat, w, tot int64) Allot {
 		return Allot{Kind: AVar, Text: g.declare("portion", fmt.Sprintf("%d/%d", w, tot))}
 	case c < g.K.PVarRepr+25:
 		if pt, ok := PercentText(r); ok {
+			if g.pct("allot.longpercent", 15) {
+				// trailing zeros up to 14-22 decimals: the same number
+				pt = pt[:len(pt)-1]
+				dec := 0
+				if i := strings.IndexByte(pt, '.'); i >= 0 {
+					dec = len(pt) - i - 1
+				} else {
+					pt += "."
+				}
+				for want := g.n("allot.longpercent.n", 14, 22); dec < want; dec++ {
+					pt += "0"
+				}
+				pt += "%"
+			}
 			return Allot{Kind: ALit, Text: pt}
 		}
 		fallthrough
